@@ -386,10 +386,10 @@ func init() {
 						res.Violate("closest:binary-differs", fmt.Sprintf("real binary and instrumented build disagree: %s vs %s", ob.String(), oc.String()), c)
 					}
 					// -d equal to the exact distance of a target, passed through the flag parser as text
-					if m != "snp" && idx%3 == 0 {
+					if m != "snp" {
 						for ti, tseq := range ts {
 							d, defined := distModel(m, c.full(c06Queries[0]), c.full(tseq))
-							if !defined || d == 0 || ti > 2 {
+							if !defined || d == 0 || ti > 3 {
 								continue
 							}
 							dc := c
